@@ -1,1 +1,158 @@
-// harness file dp (included under cfg(kani) from /repo)
+// C12 — hook H4: included as `crate::protocol::dp::verif_kani` (child of the module that owns the
+// private `ShiftedTruncatedDiscreteLaplace`).
+//
+// Decided here: (a) the sample -> share mapping `(sample - shift) mod 2^width` for output widths
+// 8/16/32 and both directions, for EVERY sample of the documented support 0..=2*shift and every
+// shift <= 2^20, with the sampler itself replaced by its contract (an arbitrary value of the
+// support); (b) the parameter validators on symbolic f64/u32 (IEEE comparisons only).
+// NOT decided: the distribution law, find_smallest_n (libm powf, unbounded search).
+use super::*;
+use crate::ff::boolean_array::{BA8, BA16, BA32};
+use crate::ff::U128Conversions;
+use crate::helpers::Direction;
+use crate::protocol::ipa_prf::oprf_padding::insecure::{Error as DpError, OPRFPaddingDp};
+use crate::secret_sharing::replicated::ReplicatedSecretSharing;
+use crate::verif_kani::common::*;
+
+static mut SHIFT: u32 = 0;
+static mut SAMPLE: u32 = 0;
+
+fn padding_dp_new_stub(_e: f64, _d: f64, _s: u32) -> Result<OPRFPaddingDp, DpError> {
+    // the distribution object is never consulted: `sample` and `get_shift` are stubbed
+    Ok(unsafe { std::mem::zeroed::<OPRFPaddingDp>() })
+}
+fn get_shift_stub(_this: &OPRFPaddingDp) -> u32 {
+    unsafe { SHIFT }
+}
+fn sample_stub<R: rand_core::RngCore + rand_core::CryptoRng>(this: &ShiftedTruncatedDiscreteLaplace, _rng: &mut R) -> u32 {
+    // contract of the truncated sampler: some value of the support 0..=2*shift
+    let v: u32 = kani::any();
+    kani::assume(v <= 2 * this.shift);
+    unsafe { SAMPLE = v };
+    v
+}
+
+struct NoRng;
+impl rand_core::RngCore for NoRng {
+    fn next_u32(&mut self) -> u32 {
+        unreachable!()
+    }
+    fn next_u64(&mut self) -> u64 {
+        unreachable!()
+    }
+    fn fill_bytes(&mut self, _dest: &mut [u8]) {
+        unreachable!()
+    }
+    fn try_fill_bytes(&mut self, _dest: &mut [u8]) -> Result<(), rand_core::Error> {
+        unreachable!()
+    }
+}
+impl rand_core::CryptoRng for NoRng {}
+
+macro_rules! noise_share {
+    ($name:ident, $ov:ty, $bytes:expr, $bits:expr, $unw:literal) => {
+        harness! {
+            #[kani::unwind($unw)]
+            #[kani::stub(crate::protocol::ipa_prf::oprf_padding::insecure::OPRFPaddingDp::new, crate::protocol::dp::verif_kani::padding_dp_new_stub)]
+            #[kani::stub(crate::protocol::ipa_prf::oprf_padding::insecure::OPRFPaddingDp::get_shift, crate::protocol::dp::verif_kani::get_shift_stub)]
+            #[kani::stub(crate::protocol::dp::ShiftedTruncatedDiscreteLaplace::sample, crate::protocol::dp::verif_kani::sample_stub)]
+            fn $name() {
+                let shift: u32 = kani::any();
+                kani::assume(shift <= (1 << 20));
+                kani::assume(u64::from(shift) * 2 < (1u64 << $bits)); // the support fits the output width
+                unsafe { SHIFT = shift };
+                let d = match ShiftedTruncatedDiscreteLaplace::new(&NoiseParams::default(), $bits) {
+                    Ok(d) => d,
+                    Err(e) => {
+                        std::mem::forget(e);
+                        kani::assume(false);
+                        unreachable!()
+                    }
+                };
+                let left: bool = kani::any();
+                let dir = if left { Direction::Left } else { Direction::Right };
+                let share = d.sample_shares::<_, $ov>(&mut NoRng, dir);
+                let sample = unsafe { SAMPLE };
+                // reference: (sample - shift) mod 2^width, as a two's complement residue
+                let expect: u64 = ((i64::from(sample) - i64::from(shift)) as u64) & ((1u64 << $bits) - 1);
+                let (noise, zero) = if left { (share.right(), share.left()) } else { (share.left(), share.right()) };
+                let nb = unsafe { std::mem::transmute::<$ov, [u8; $bytes]>(noise) };
+                let zb = unsafe { std::mem::transmute::<$ov, [u8; $bytes]>(zero) };
+                let i: usize = kani::any();
+                kani::assume(i < $bytes);
+                assert!(nb[i] == ((expect >> (8 * i)) & 0xFF) as u8, "noise share == (sample - shift) mod 2^width");
+                assert!(zb[i] == 0, "the other share is zero");
+                kani::cover!(sample + 1 == shift); // the value -1
+                kani::cover!(sample == 2 * shift && shift > 0);
+                std::mem::forget(d);
+            }
+        }
+    };
+}
+
+noise_share!(q12_noise_share_8, BA8, 1, 8, 12);
+noise_share!(q12_noise_share_16, BA16, 2, 16, 20);
+noise_share!(q12_noise_share_32, BA32, 4, 32, 36);
+
+harness! {
+    fn q12_noise_params_ranges() {
+        // NoiseParams::new accepts exactly: epsilon > 0, delta > 0, success_prob in [0,1], and the
+        // five positive scale/sensitivity parameters (NaN inputs are outside the claim).
+        let f: [f64; 8] = kani::any();
+        let cap: u32 = kani::any();
+        let mut k = 0;
+        while k < 8 {
+            kani::assume(!f[k].is_nan());
+            k += 1;
+        }
+        let ok = f[0] > 0.0 && f[1] > 0.0 && (0.0..=1.0).contains(&f[2]) && f[3] > 0.0 && f[4] > 0.0 && f[5] > 0.0 && f[6] > 0.0 && f[7] > 0.0;
+        match NoiseParams::new(f[0], f[1], cap, f[2], f[3], f[4], f[5], f[6], f[7]) {
+            Ok(p) => {
+                assert!(ok, "accepted parameters are in the documented ranges");
+                assert!(p.epsilon == f[0] && p.delta == f[1] && p.per_user_credit_cap == cap && p.success_prob == f[2]);
+                kani::cover!(true);
+            }
+            Err(e) => {
+                assert!(!ok, "documented parameters are accepted");
+                std::mem::forget(e);
+                kani::cover!(true);
+            }
+        }
+    }
+}
+
+fn find_smallest_n_stub(big_delta: u32, _epsilon: f64, _small_delta: f64) -> u32 {
+    // contract: some n >= sensitivity (the search itself is outside the claim)
+    let n: u32 = kani::any();
+    kani::assume(n >= big_delta && n <= 1_000_000);
+    n
+}
+
+harness! {
+    #[kani::stub(crate::protocol::ipa_prf::oprf_padding::insecure::find_smallest_n, crate::protocol::dp::verif_kani::find_smallest_n_stub)]
+    fn q12_padding_dp_ranges() {
+        // OPRFPaddingDp::new: Err(BadEpsilon) below MIN_POSITIVE, Err(BadDelta) outside
+        // [MIN_POSITIVE, 1 - MIN_POSITIVE], Err(BadSensitivity) above 10^6, otherwise constructed.
+        let eps: f64 = kani::any();
+        let delta: f64 = kani::any();
+        let sens: u32 = kani::any();
+        kani::assume(!eps.is_nan() && !delta.is_nan());
+        let r = OPRFPaddingDp::new(eps, delta, sens);
+        let eps_ok = eps >= f64::MIN_POSITIVE;
+        let delta_ok = delta >= f64::MIN_POSITIVE && delta <= 1.0 - f64::MIN_POSITIVE;
+        let sens_ok = sens <= 1_000_000;
+        match &r {
+            Err(DpError::BadEpsilon(_)) => assert!(!eps_ok),
+            Err(DpError::BadDelta(_)) => assert!(eps_ok && !delta_ok),
+            Err(DpError::BadSensitivity(_)) => assert!(eps_ok && delta_ok && !sens_ok),
+            Err(_) => assert!(eps_ok && delta_ok && sens_ok), // rejected further down (scale 1/eps out of range)
+            Ok(d) => {
+                assert!(eps_ok && delta_ok && sens_ok, "only documented parameters are accepted");
+                assert!(d.get_shift() >= sens, "truncation point is at least the sensitivity");
+            }
+        }
+        kani::cover!(r.is_ok());
+        kani::cover!(matches!(r, Err(DpError::BadDelta(_))));
+        std::mem::forget(r);
+    }
+}
